@@ -82,7 +82,7 @@ func (r *Run) RacePassAlways(rounds int, repoMarker string) {
 		if len(short) > 4 {
 			short = short[:4]
 		}
-		r.Report(Violation{Clause: "data-race", Tags: []string{"race-detector", "free-running-supplement", "at:" + key}, Msg: "the race detector reports unsynchronised accesses in a free-running run of the ten loops (report in " + path + "): " + strings.Join(short, " <- "), Cost: 0, History: map[string]any{"RaceReport": rep}})
+		r.Report(Violation{Clause: "data-race", Tags: []string{"race-detector", "free-running-supplement", "at:" + key}, Msg: "the race detector reports unsynchronised accesses in a free-running run of the concurrent activities (report in " + path + "): " + strings.Join(short, " <- "), Cost: 0, History: map[string]any{"RaceReport": rep}})
 	}
 	if r.Extra == nil {
 		r.Extra = map[string]any{}
